@@ -10,7 +10,10 @@ from __future__ import annotations
 import random
 import uuid as _uuid
 
-SPECIAL = ["|", ";", "\\", ",", '"', "\n", "é", "日本", "a|b", "x;y", "\\;", "tab\there", "q'uote", "ü ber", "\U0001F600"]
+SPECIAL = ["|", ";", "\\", ",", '"', "\n", "é", "日本", "a|b", "x;y", "\\;", "tab\there", "q'uote", "ü ber", "\U0001F600",
+           # text that is not in Unicode normal form (decomposed accents, singleton code points, jamo): a string is the
+           # sequence of its code points, in a flow file and in a sheet alike
+           "cafe\u0301", "\u212b", "\u2126m", "q\u0323\u0307", "\u1100\u1161", "\u037e", "A\u030a"]
 WORDS = ["yes", "no", "red", "blue", "stop", "go", "one two", "7", "Alpha"]
 TESTS1 = ["has_any_word", "has_phrase", "has_only_phrase", "has_beginning", "has_number_eq", "has_pattern", "has_only_text", "has_number_gt",
           "all_words", "has_number_lt", "has_number_lte", "has_number_gte", "has_date_lt", "has_date_eq", "has_date_gt", "has_district", "has_category"]
@@ -48,7 +51,7 @@ class FlowGen:
         rng = self.rng
         w = rng.choice(WORDS)
         if self.special and rng.random() < 0.3:
-            w = w + rng.choice(["|", ";", "\\", "é", " x"])
+            w = w + rng.choice(["|", ";", "\\", "é", " x", "e\u0301", "\u212b"])
         return w.strip()
 
     # ---- actions
